@@ -43,15 +43,23 @@ IdSeqs(n, IDs) == {g \in [1 .. n -> IDs \cup {AutoMark}] :
 InS(d, PSs, N, IDs, SHs) == \E ps \in PSs, n \in 0 .. N : \E g \in IdSeqs(n, IDs), h \in [1 .. n -> SHs] :
                                 d = Desc(ps, [i \in 1 .. n |-> Ent(g[i], h[i])])
 
-IdsQ == {<<"s", 1>>, <<"i", 1>>, <<"i", 2>>}
-IdsT == IdsQ \cup {<<"s", 2>>}             \* <<"s", 2>> is the string "1": not the integer 1
+\* falsy identifiers are identifiers: 0, "" (<<"s", 0>>), false (<<"b", 0>>; never together with 0: False == 0 in Python)
+IdsQ == {<<"s", 1>>, <<"i", 1>>, <<"i", 0>>, <<"s", 0>>}
+IdsT == {<<"s", 1>>, <<"s", 0>>, <<"i", 1>>, <<"i", 2>>, <<"i", 0>>}
+IdsB == {<<"b", 0>>, <<"s", 2>>, <<"i", 1>>}      \* <<"s", 2>> is the string "1": not the integer 1
+
+\* second round (clear the handle, load again) for descriptions with one processor or one entity: what a reload
+\* can get wrong sits in the arguments, not in the number of entities
+AgainSmall(d) == Len(d.procs) + Len(d.ents) <= 1
+AgainNever(d) == FALSE
 
 CONSTANT Fam       \* which family (cfg:  PickDesc <- InFam)
-SHsT == {SH0, SH1, SH2, SH3, SH4, SH5}
+SHsT == {SH0, SH1, SH3, SH4, SH5}
 PSOf(k) == CASE k = "TS0" -> PS0 [] k = "TS1" -> PS1 [] k = "TS2" -> PS2 [] k = "TS3" -> PS3
              [] k = "TS4" -> PS4 [] k = "TS5" -> PS5 [] k = "TS6" -> PS6 [] k = "TS7" -> PS7 [] k = "TS8" -> PS8
 QuickV(d) == InV(d, ArgsOne \cup ArgsTwo(Core), {"CPlain", "CHandler"}, {"PA"})
-QuickS(d) == InS(d, {PS0, PS2, PS5, PS6}, 3, IdsQ, {SH0, SH1, SH3, SH4})
+QuickS(d) == \/ InS(d, {PS0}, 3, IdsQ, {SH0, SH1, SH3})
+             \/ InS(d, {PS0, PS2, PS5, PS6}, 2, {<<"s", 1>>, <<"i", 1>>, <<"i", 0>>}, {SH0, SH1, SH3, SH4})
 InFam(d) ==
     \/ Fam = "tiny"   /\ (InS(d, {PS0, PS2}, 2, {<<"i", 1>>}, {SH1, SH3}) \/ InV(d, {<< <<"R2">>, Kw1("H2") >>}, {"CHandler"}, {}))
     \/ Fam = "quickV" /\ QuickV(d)
@@ -61,5 +69,6 @@ InFam(d) ==
     \/ Fam = "TV1"    /\ InV(d, ArgsOne \cup ArgsTwo(Toks), {"CPlain"}, {})
     \/ Fam = "TV2"    /\ InV(d, ArgsOne \cup ArgsTwo(Toks), {"CHandler"}, {})
     \/ Fam = "TV3"    /\ InV(d, ArgsOne \cup ArgsTwo(Toks), {}, {"PA", "PHandler"})
+    \/ Fam = "TB"     /\ InS(d, {PS0, PS6}, 3, IdsB, {SH0, SH1, SH2, SH3})
     \/ Fam \in {"TS0", "TS1", "TS2", "TS3", "TS4", "TS5", "TS6", "TS7", "TS8"} /\ InS(d, {PSOf(Fam)}, 3, IdsT, SHsT)
 =============================================================================
